@@ -179,26 +179,6 @@ impl SemanticState {
             )?,
         );
 
-        // A bare `u32` in the emitted module means whatever item of that name the module
-        // defines, while the description means the predefined type: the two must not coincide.
-        let shadows_predefined = |name: &str| {
-            self.type_registry
-                .get(&ItemPath::from(name))
-                .is_some_and(|item| item.is_predefined())
-        };
-        for name in module
-            .definitions
-            .iter()
-            .map(|d| d.name.as_str())
-            .chain(module.extern_types.iter().map(|(name, _)| name.as_str()))
-        {
-            if shadows_predefined(name) {
-                anyhow::bail!(
-                    "`{name}` in module `{path}` has the name of a predefined type, which it would shadow in the generated code"
-                );
-            }
-        }
-
         for definition in &module.definitions {
             let new_path = path.join(definition.name.as_str().into());
             if self.type_registry.get(&new_path).is_some() {
